@@ -291,7 +291,7 @@ let apply (si : stepinfo) : string option =
            end
        | _ -> failwith "gimage")
   | "gimagel" | "gpreimagel" ->
-      (* expression-on-the-left forms: the transfer relation is  lhs(x') = rhs(x) (mod m)  with x' = x on the
+      (* expression-on-the-left forms: the transfer relation is  lhs(x_new) = rhs(x) (mod m)  with x_new = x on the
          variables that do not occur in lhs.  Reference = composition of the verified operators in dimension n+1:
          image:    t := rhs(x) (+ m Z);  forget the variables of lhs;  meet with lhs(x) = t;  drop t
          preimage: t := lhs(x);          forget the variables of lhs;  meet with rhs(x) = t (mod m);  drop t *)
@@ -314,14 +314,10 @@ let apply (si : stepinfo) : string option =
               else (set { x with g = List.fold_left (fun g v -> unconstrain (nat v) g) x.g lvars; cv = None }; Some "ok"))
            else begin
              let m = Z.abs m in
-             let g1 = add_dims_embed (nat n) (nat 1) x.g in
-             let (ea, eb) = if si.op = "gimagel" then (ra, rb) else (la, lb) in
-             let g2 = gen_image (nat n) ea eb (z_of_int 1) (if si.op = "gimagel" then m else Z0) g1 in
-             let g3 = List.fold_left (fun g v -> unconstrain (nat v) g) g2 lvars in
-             let (ca, cb) = if si.op = "gimagel" then (la, lb) else (ra, rb) in
-             let c = { cg_a = ca @ [ z_of_int (-1) ]; cg_b = cb; cg_m = (if si.op = "gimagel" then Z0 else m) } in
-             let g4 = get "gens_add_cgs" (gens_add_cgs (nat (n + 1)) g3 [ c ]) in
-             set { x with g = remove_higher (nat n) g4; cv = None }; Some "ok"
+             (* the verified compositions gen_image_lhs / gen_preimage_lhs (coq/Grid/GridOpsSpec2.v) *)
+             let r = if si.op = "gimagel" then gen_image_lhs (nat n) la lb ra rb m x.g
+                     else gen_preimage_lhs (nat n) la lb ra rb m x.g in
+             set { x with g = get "gen_image_lhs" r; cv = None }; Some "ok"
            end
        | _ -> failwith "gimagel")
   | "relgen" ->
